@@ -107,7 +107,7 @@ impl Property for C01 {
         }
     }
     fn rule_text(&self) -> &'static str {
-        "a DUT with two browses (one subtype), a hostname search, two registered services and (half of the worlds) accept_unsolicited receives 150 datagrams per world, one per loop iteration, through the simulated socket: (a) bit / byte / truncation / extension / count-rewrite / pointer-insertion / splice mutations of valid responses about the names it cares for, (b) grammar packets (pointers into the header, self and mutual pointers, cycles through RDATA, chains of hundreds of pointers, names beyond 255 bytes, RDLENGTH 0 / short / long / 65535 for every dispatched type, zero-length HINFO at the end, reserved label types, huge section counts, hundreds of tiny records), (c) the complete small-alphabet enumeration, (d) random bytes of length 0..9000 incl. > 8972 (receive-buffer truncation). Rules: R1 no panic; R2 every step ends (watchdog); R3 bytes allocated by the daemon thread in the step <= 64 KiB + 64 x length x (1 + records announced, capped at length/11); R4 what the crate's decoder returns for the same bytes agrees record by record with a lenient independent parser and no name is longer than the datagram; R5 a follow-up exchange is still served. Non-trivial = a datagram whose decode got past the header (the crate returned a message, or an error other than a short header); distinct = distinct (length class, outcome, record types reached) tuples plus schedule signature."
+        "a DUT with two browses (one subtype), a hostname search, two registered services and (half of the worlds) accept_unsolicited receives 150 datagrams per world, one per loop iteration, through the simulated socket: (a) bit / byte / truncation / extension / count-rewrite / pointer-insertion / splice mutations of valid responses about the names it cares for, (b) grammar packets (pointers into the header, self and mutual pointers, cycles through RDATA, chains of hundreds of pointers, names beyond 255 bytes, RDLENGTH 0 / short / long / 65535 for every dispatched type, zero-length HINFO at the end, reserved label types, huge section counts, hundreds of tiny records), (c) the complete small-alphabet enumeration, (d) random bytes of length 0..9000 incl. > 8972 (receive-buffer truncation). Rules: R1 no panic; R2 every step ends (watchdog); R3 bytes allocated by the daemon thread in the step <= 512 KiB + 256 x length (whatever the section counts announce); R4 what the crate's decoder returns for the same bytes agrees record by record with a lenient independent parser and no name is longer than the datagram; R5 a follow-up exchange is still served. Non-trivial = a datagram whose decode got past the header (the crate returned a message, or an error other than a short header); distinct = distinct (length class, outcome, record types reached) tuples plus schedule signature."
     }
     fn assumptions(&self) -> Vec<&'static str> {
         vec![
@@ -220,7 +220,10 @@ impl Property for C01 {
             // R3: allocation bound
             let announced: u64 = if len >= 12 { (4..12).step_by(2).map(|i| u16::from_be_bytes([r.bytes[i], r.bytes[i + 1]]) as u64).sum() } else { 0 };
             let recs = announced.min(len as u64 / 11 + 1);
-            let bound = 64 * 1024 + 64 * (len as u64 + 9000) * (1 + recs);
+            // proportional to the datagram, not to the counts it announces: 512 KiB for the receive buffer and the work
+            // of one loop iteration, plus 256 bytes per byte received
+            let _ = recs;
+            let bound = 512 * 1024 + 256 * len as u64;
             if st.n_rx == 1 && st.alloc_bytes > bound {
                 j.fail("C01-R3", format!("handling a {}-byte datagram (announcing {} entries) allocated {} bytes (bound {}) at t={} | first bytes {}", len, announced, st.alloc_bytes, bound, st.t, wire::hex(&r.bytes[..len.min(60)])));
             }
